@@ -157,13 +157,13 @@ def execute(schedule, ctx):
         try:
             try:
                 if op['op'] == 'solve_t':
-                    v = m.solve_t(op['t'], **opts)
+                    v = m.solve_t(op['t'], **S.solver_kwargs(opts))
                 elif op['op'] == 'solve_period':
-                    v = m.solve_period(spans.label_forms(sp_now, span, _norm(op['t'], n), op.get('form', 0)), **opts)
+                    v = m.solve_period(spans.label_forms(sp_now, span, _norm(op['t'], n), op.get('form', 0)), **S.solver_kwargs(opts))
                 else:
                     a = None if op['start'] is None else span[op['start']]
                     b = None if op['end'] is None else span[op['end']]
-                    v = m.solve(start=a, end=b, **opts)
+                    v = m.solve(start=a, end=b, **S.solver_kwargs(opts))
                 out = {'kind': 'return', 'value': v}
             except Exception as e:
                 out = {'kind': 'raise', 'exc': e}
